@@ -1939,6 +1939,10 @@ dnslabel_table_add(struct dnslabel_table *table, const char *label, off_t pos)
 {
 	char *v;
 	int p;
+	/* a compression pointer has 14 bits: nothing beyond the first 16 KiB
+	 * of a message can be referred to */
+	if (pos > 0x3fff)
+		return (-1);
 	if (table->n_labels == MAX_LABELS)
 		return (-1);
 	v = mm_strdup(label);
